@@ -6,7 +6,6 @@ import (
 	"fmt"
 
 	lcs "github.com/yudai/golcs"
-	"golang.org/x/exp/slices"
 )
 
 const (
@@ -249,9 +248,10 @@ func (d Diff) RenderPatch() (string, error) {
 				Value: e,
 			})
 		}
-		slices.Reverse(element.Add)
-		for _, e := range element.Add {
-			if isVoid(element.Add[0]) {
+		// Adds at one index must be emitted in reverse order.
+		for i := len(element.Add) - 1; i >= 0; i-- {
+			e := element.Add[i]
+			if isVoid(element.Add[len(element.Add)-1]) {
 				continue
 			}
 			patch = append(patch, patchElement{
@@ -273,17 +273,22 @@ func (d Diff) RenderMerge() (string, error) {
 		// A noop JSON Merge Patch should be an empty object
 		return "{}", nil
 	}
-	for _, e := range d {
+	merge := make(Diff, len(d))
+	for i, e := range d {
 		if !e.Metadata.Merge {
 			return "", fmt.Errorf("cannot render non-merge element as merge")
 		}
-		for i := range e.Add {
-			if isVoid(e.Add[i]) {
-				e.Add[i] = jsonNull{}
+		add := make([]JsonNode, len(e.Add))
+		for j, n := range e.Add {
+			if isVoid(n) {
+				n = jsonNull{}
 			}
+			add[j] = n
 		}
+		e.Add = add
+		merge[i] = e
 	}
-	mergePatch, err := voidNode{}.Patch(d)
+	mergePatch, err := voidNode{}.Patch(merge)
 	if err != nil {
 		return "", err
 	}
